@@ -3,6 +3,7 @@ package main
 // Forward symbolic execution of go/ssa functions (DESIGN §2, Appendix B).
 
 import (
+	"sync"
 	"crypto/sha1"
 	"fmt"
 	"go/token"
@@ -39,6 +40,12 @@ func (st State) assume(t *Term) State {
 	if t.IsTrue() {
 		return st
 	}
+	if t.Op == OAnd {
+		for _, a := range t.Args {
+			st = st.assume(a)
+		}
+		return st
+	}
 	n := 1
 	if st.pc != nil {
 		n = st.pc.n + 1
@@ -57,6 +64,45 @@ func (st State) pcList() []*Term {
 		out[i], out[j] = out[j], out[i]
 	}
 	return out
+}
+
+// known reports whether t is syntactically decided by the path condition.
+func (st State) known(t *Term) (bool, bool) {
+	var neg *Term
+	if t.Op == ONot {
+		neg = t.Args[0]
+	}
+	for p := st.pc; p != nil; p = p.prev {
+		if p.t == t {
+			return true, true
+		}
+		if neg != nil && p.t == neg {
+			return false, true
+		}
+		if p.t.Op == ONot && p.t.Args[0] == t {
+			return false, true
+		}
+	}
+	return false, false
+}
+
+func (e *Exec) knownCond(st State, t *Term) (bool, bool) {
+	if v, ok := st.known(t); ok {
+		return v, ok
+	}
+	var neg *Term
+	if t.Op == ONot {
+		neg = t.Args[0]
+	}
+	for _, a := range e.axioms {
+		if a == t {
+			return true, true
+		}
+		if neg != nil && a == neg || a.Op == ONot && a.Args[0] == t {
+			return false, true
+		}
+	}
+	return false, false
 }
 
 func (st State) pcFalse() bool {
@@ -144,7 +190,8 @@ type Obligation struct {
 	Pos     string
 	Props   []string
 	PropLvl bool // property-level (may raise a VIOLATION)
-	Asserts []*Term
+	Asserts []*Term // hypotheses in the goal's cone of influence + negated goal
+	Full    []*Term // all hypotheses + negated goal (used to confirm a sat answer)
 	Goal    string
 	ctx     *Ctx
 	exec    *Exec
@@ -196,8 +243,13 @@ type Exec struct {
 	curProps   []string
 	mode       string
 	closures   map[*Term]*closure
+	constGlobals map[*Term]bool
+	locals     []*Region
 	stack      []*ssa.Function
 	forceInline bool
+	noCut      bool
+	steps      int
+	maxSteps   int
 	noDecr     []string
 	bounded    []string
 }
@@ -205,8 +257,9 @@ type Exec struct {
 func newExec(P *Program) *Exec {
 	e := &Exec{P: P, c: NewCtx(), regions: map[*Term]*Region{}, globals: map[*ssa.Global]*Term{},
 		strs: map[string]Val{}, inlined: map[string]bool{}, viaCt: map[string]bool{},
-		assumed: map[string]bool{}, lineHash: map[string]int{}, closures: map[*Term]*closure{}}
+		assumed: map[string]bool{}, lineHash: map[string]int{}, closures: map[*Term]*closure{}, constGlobals: map[*Term]bool{}}
 	e.cfg = ExecConfig{unroll: 40, inlineDepth: 8, maxPaths: 20000}
+	e.maxSteps = 3000000
 	for i, w := range heapWidths {
 		e.base[i] = e.c.Var(fmt.Sprintf("H%d", w), Sort{KArr, w})
 	}
@@ -319,6 +372,10 @@ func (e *Exec) loadFrom(h [4]*HeapLayer, a *Term, T types.Type) Val {
 }
 
 func (e *Exec) load(st State, a *Term, T types.Type) (State, Val) {
+	if e.constGlobals[addrRoot(a)] {
+		// immutable package-level variable: read the initial heap
+		return st, e.loadFrom(e.initState().h, a, T)
+	}
 	v := e.loadFrom(st.h, a, T)
 	st = e.assumeValid(st, T, v, false)
 	return st, v
@@ -334,6 +391,49 @@ func (e *Exec) storeVal(st State, a *Term, T types.Type, v Val) State {
 		st.h[hi] = e.store(st.h[hi], e.c.Add(a, e.c.Const(64, uint64(i))), e.toCell(k, v[i]))
 	}
 	return st
+}
+
+func typeContains(T, E types.Type) bool {
+	if types.Identical(T, E) {
+		return true
+	}
+	switch t := T.Underlying().(type) {
+	case *types.Struct:
+		for i := 0; i < t.NumFields(); i++ {
+			if typeContains(t.Field(i).Type(), E) {
+				return true
+			}
+		}
+	case *types.Array:
+		return typeContains(t.Elem(), E)
+	}
+	return false
+}
+
+// typeDisjoint: a pointer/slice of element type E that came from unknown memory cannot
+// point into a local variable whose type does not contain an E (Go allocations are typed).
+func (e *Exec) typeDisjoint(st State, base, nslots *Term, E types.Type) State {
+	c := e.c
+	for _, r := range e.locals {
+		if r.T == nil || typeContains(r.T, E) {
+			continue
+		}
+		st = st.assume(c.Or(c.Ule(c.Add(base, nslots), r.base), c.Ule(c.Add(r.base, c.Const(64, r.n)), base)))
+	}
+	return st
+}
+
+// fromInitialHeap: the term is a cell of the heap as it was on function entry.
+func (e *Exec) fromInitialHeap(t *Term) bool {
+	if t.Op != OSelect {
+		return false
+	}
+	for _, b := range e.base {
+		if t.Args[0] == b {
+			return true
+		}
+	}
+	return false
 }
 
 func unknownMem(t *Term) bool {
@@ -355,12 +455,18 @@ func (e *Exec) assumeValid(st State, T types.Type, v Val, input bool) State {
 		}
 		es := uint64(e.P.lay.nslots(t.Elem()))
 		base, ln, cp := v[0], v[1], v[2]
+		lim := st.brk
+		if e.fromInitialHeap(base) {
+			lim = e.brk0
+		}
 		st = st.assume(c.Ule(ln, cp))
 		st = st.assume(c.Ule(cp, c.Const(64, 1<<32)))
 		end := c.Add(base, c.Mul(cp, c.Const(64, es)))
-		st = st.assume(c.Or(c.Eq(cp, c.Const(64, 0)), c.And(c.Ule(c.Const(64, 1), base), c.Ule(base, st.brk), c.Ule(end, st.brk))))
+		st = st.assume(c.Or(c.Eq(cp, c.Const(64, 0)), c.And(c.Ule(c.Const(64, 1), base), c.Ule(base, lim), c.Ule(end, lim))))
 		if input {
 			e.registerInput(base, cp)
+		} else if lim != e.brk0 {
+			st = e.typeDisjoint(st, base, c.Mul(cp, c.Const(64, es)), t.Elem())
 		}
 	case *types.Basic:
 		if t.Info()&types.IsString != 0 {
@@ -381,7 +487,14 @@ func (e *Exec) assumeValid(st State, T types.Type, v Val, input bool) State {
 		if n == 0 {
 			n = 1
 		}
-		st = st.assume(c.Or(c.Eq(v[0], c.Const(64, 0)), c.And(c.Ule(c.Const(64, 1), v[0]), c.Ule(v[0], st.brk), c.Ule(c.Add(v[0], c.Const(64, n)), st.brk))))
+		lim := st.brk
+		if e.fromInitialHeap(v[0]) {
+			lim = e.brk0
+		}
+		st = st.assume(c.Or(c.Eq(v[0], c.Const(64, 0)), c.And(c.Ule(c.Const(64, 1), v[0]), c.Ule(v[0], lim), c.Ule(c.Add(v[0], c.Const(64, n)), lim))))
+		if !input && lim != e.brk0 {
+			st = e.typeDisjoint(st, v[0], c.Const(64, n), t.Elem())
+		}
 		if input {
 			e.registerInput(v[0], c.Const(64, n))
 		}
@@ -396,6 +509,10 @@ func (e *Exec) assumeValid(st State, T types.Type, v Val, input bool) State {
 			st = st.assume(c.Imp(c.Eq(v[0], c.Const(64, 0)), c.Eq(v[1], c.Const(64, 0))))
 			return st
 		}
+		lim := st.brk
+		if e.fromInitialHeap(v[1]) {
+			lim = e.brk0
+		}
 		var alts []*Term
 		alts = append(alts, c.And(c.Eq(v[0], c.Const(64, 0)), c.Eq(v[1], c.Const(64, 0))))
 		for _, I := range impls {
@@ -409,7 +526,7 @@ func (e *Exec) assumeValid(st State, T types.Type, v Val, input bool) State {
 				n = 1
 			}
 			alts = append(alts, c.And(c.Eq(v[0], c.Const(64, e.P.tag(I))),
-				c.Ule(c.Const(64, 1), v[1]), c.Ule(v[1], st.brk), c.Ule(c.Add(v[1], c.Const(64, n)), st.brk)))
+				c.Ule(c.Const(64, 1), v[1]), c.Ule(v[1], lim), c.Ule(c.Add(v[1], c.Const(64, n)), lim)))
 		}
 		st = st.assume(c.Or(alts...))
 	case *types.Struct:
@@ -442,8 +559,11 @@ func (e *Exec) srcLine(p token.Pos) string {
 }
 
 var fileCache = map[string]string{}
+var fileMu sync.Mutex
 
 func readFileCached(name string) (string, error) {
+	fileMu.Lock()
+	defer fileMu.Unlock()
 	if s, ok := fileCache[name]; ok {
 		return s, nil
 	}
@@ -479,6 +599,9 @@ func (e *Exec) oblige(st State, fn *ssa.Function, kind, label string, pos token.
 	if src != "" && (label == "" || kind == "pre") {
 		name += "@" + hash8(src)
 	}
+	if e.rootFn != nil && fn != nil && fn != e.rootFn {
+		name += " [in " + shortFn(e.rootFn.String()) + "]"
+	}
 	ob := &Obligation{Name: name, Kind: kind, Label: label, Func: fname, Pos: e.P.pos(pos), ctx: c, exec: e,
 		Goal: c.Show(goal)}
 	if goal.IsTrue() {
@@ -486,10 +609,11 @@ func (e *Exec) oblige(st State, fn *ssa.Function, kind, label string, pos token.
 		ob.Result = "unsat"
 		ob.Solver = "simplifier"
 	} else {
-		as := append([]*Term{}, e.axioms...)
-		as = append(as, st.pcList()...)
-		as = append(as, c.Not(goal))
-		ob.Asserts = as
+		hyps := append([]*Term{}, e.axioms...)
+		hyps = append(hyps, st.pcList()...)
+		ng := c.Not(goal)
+		ob.Full = append(append([]*Term{}, hyps...), ng)
+		ob.Asserts = append(c.relevant(hyps, ng), ng)
 	}
 	ob.Props = e.curProps
 	e.obls = append(e.obls, ob)
@@ -573,6 +697,10 @@ func (e *Exec) execFrom(fr *Frame, st State, b *ssa.BasicBlock, prev *ssa.BasicB
 	}
 	for i := idx; i < len(b.Instrs); i++ {
 		instr := b.Instrs[i]
+		e.steps++
+		if e.maxSteps > 0 && e.steps > e.maxSteps {
+			e.fail("step budget exceeded in %s", e.rootFn)
+		}
 		switch in := instr.(type) {
 		case *ssa.Phi:
 			if lc := fr.loops[b]; lc != nil && lc.regsAt != nil {
@@ -597,7 +725,19 @@ func (e *Exec) execFrom(fr *Frame, st State, b *ssa.BasicBlock, prev *ssa.BasicB
 			if cond.IsFalse() {
 				return e.execFrom(fr, st, b.Succs[1], b, 0)
 			}
+			if v, ok := e.knownCond(st, cond); ok {
+				if v {
+					return e.execFrom(fr, st, b.Succs[0], b, 0)
+				}
+				return e.execFrom(fr, st, b.Succs[1], b, 0)
+			}
 			e.paths++
+			if os.Getenv("KVC_FORKS") != "" {
+				e.lineHash[e.P.pos(in.Cond.Pos())+" "+shortFn(fr.fn.String())]++
+				if os.Getenv("KVC_FORKS") == "2" {
+					fmt.Fprintf(os.Stderr, "fork %s: %s\n", e.P.pos(in.Cond.Pos()), e.c.Show(cond))
+				}
+			}
 			if e.paths > e.cfg.maxPaths {
 				e.fail("path budget exceeded in %s", e.rootFn)
 			}
@@ -733,11 +873,13 @@ func (e *Exec) globalAddr(g *ssa.Global) *Term {
 		case name == "util.Logger":
 			e.axioms = append(e.axioms, c.Eq(tag, c.Const(64, 0)), c.Eq(word, c.Const(64, 0)))
 			e.assumed["util.Logger == nil (no logger installed)"] = true
+			e.constGlobals[a] = true
 		case types.Identical(T, types.Universe.Lookup("error").Type()):
 			// error variables are initialised once to a non-nil value and never reassigned
 			e.axioms = append(e.axioms, c.Ne(tag, c.Const(64, 0)), c.Ne(word, c.Const(64, 0)),
 				c.Ult(word, e.brk0))
 			e.assumed["package-level error variables are non-nil and never reassigned"] = true
+			e.constGlobals[a] = true
 		}
 	}
 	if v, ok := e.P.globalInit[g]; ok {
@@ -747,6 +889,7 @@ func (e *Exec) globalAddr(g *ssa.Global) *Term {
 			cell := c.Select(e.base[k.heapIdx()], c.Add(a, c.Const(64, uint64(i))))
 			e.axioms = append(e.axioms, c.Eq(cell, c.Const(k.width(), v[i])))
 		}
+		e.constGlobals[a] = true
 	}
 	return a
 }
